@@ -167,12 +167,12 @@ func genSplit(r *rng, tier string) interface{} {
 		// a redirection target: the operator first in the segment, after a word, after a file descriptor
 		in.Text = pick(r, []string{"", "cmd | ", "cmd ; ", "a b "}) + pick(r, []string{">", "> ", "pos1>", "pos1 > ", "2> ", "pos1 2>", ">>", "< "}) + pick(r, []string{"", "out.", "fi", "s", "zz"})
 	}
-	pool := []string{"val", "value", "two words", "dir/", "é x", "v", "tw", "a b c", "file.txt", "x-y"}
+	pool := []string{"val", "value", "two words", "dir/", "é x", "v", "tw", "a b c", "file.txt", "x-y", "50€", "v€", "va¬", "5 0€"}
 	k := 1 + r.intn(4)
 	for i := 0; i < k; i++ {
 		in.Values = append(in.Values, pick(r, pool))
 	}
-	in.Nospace = pick(r, []string{"", "", "/", "s", "*", "/l"})
+	in.Nospace = pick(r, []string{"", "", "/", "s", "*", "/l", "€", "¬", "€/"})
 	return in
 }
 
